@@ -1,8 +1,8 @@
 #!/bin/bash
 # usage: goal.sh <file.v> <line>  -- shows the proof state after line <line> (run from /verif/coq)
 f=$1; n=$2
-tmp=$(dirname $f)/_goal_tmp.v
+tmp=$(dirname $f)/_goal_tmp_$$.v
 head -n $n $f > $tmp
 echo "Show. Abort All." >> $tmp
 timeout 120 coqc -noglob -Q . Discv5V -w -all $tmp 2>&1 | tail -${3:-40}
-rm -f $tmp $(dirname $f)/_goal_tmp.vo* $(dirname $f)/._goal_tmp.aux
+rm -f $tmp ${tmp}o ${tmp}os ${tmp}ok $(dirname $f)/._goal_tmp_$$.aux $(dirname $f)/_goal_tmp_$$.glob
